@@ -19,6 +19,7 @@ class G:
         self.libq = {}       # qualified import m: name -> title
         self.libu = {}       # unqualified import: name -> title
         self.unbound = False
+        self.pool = list(POOL)
 
     def fresh(self, p):
         self.k += 1
@@ -35,13 +36,18 @@ class G:
                 return ["var", "zz"]
             if self.libq and r.random() < 0.15:
                 return ["qvar", "m", r.choice(list(self.libq))]
+            if self.libq and r.random() < 0.03:
+                missing = [n for n in POOL + ["d"] if n not in self.libq]
+                if missing:                 # a qualified name the imported module does not declare (a local `m$x` must not capture it)
+                    self.unbound = True
+                    return ["qvar", "m", r.choice(missing)]
             if names:
                 return ["var", r.choice(names)]
             return ["mark", self.fresh("K")]
         if x < 0.6:
             return ["mark", self.fresh("K")]
         if x < 0.75 and depth > 0:
-            b = r.choice(POOL)
+            b = r.choice(self.pool)
             body = ["obj", [(self.fresh("u"), self.expr(scope + [b], depth - 1, fn_ok)), (self.fresh("s"), ["arr", ["var", b]])]]
             return ["rec", b, body]
         if x < 0.9 and fn_ok and self.funcs:
@@ -68,11 +74,14 @@ class G:
             self.libu = {n: "U:" + n for n in r.sample(["d", "e"], r.randint(1, 2))}
             mods["file:///w/u.oal"] = "".join('let %s = num `title: "%s"`;\n' % (n, t) for n, t in self.libu.items())
             uses.append('use "u.oal";')
-        for n in r.sample(POOL, r.randint(0, 3)):
+        if self.libq or r.random() < 0.2:
+            # identifiers that spell a qualified name with another separator: `m$a` is one identifier, `m.a` is not
+            self.pool = POOL + ["m$" + n for n in POOL[:2]]
+        for n in r.sample(self.pool, r.randint(0, 3)):
             self.decls[n] = ["mark", "D:" + n]
         nf = r.randint(1, 3)
         for i in range(nf):
-            params = [r.choice(POOL) for _ in range(r.randint(1, 3))]
+            params = [r.choice(self.pool) for _ in range(r.randint(1, 3))]
             if r.random() < 0.7:
                 params = list(dict.fromkeys(params))        # mostly distinct parameter names
             fname = "f%d" % i
